@@ -32,3 +32,5 @@ for r in rows:
 subprocess.run("cd %s/.cache/replay-target/debug 2>/dev/null && find incremental -maxdepth 1 -mindepth 1 -mmin +45 ! -name '*main*' -exec rm -rf {} + ; "
                "find deps -maxdepth 1 -name '*vreplay_*' ! -name '*vreplay_main*' -mmin +45 -delete ; find . -maxdepth 1 -name 'vreplay_*' ! -name 'vreplay_main*' -mmin +45 -delete ; "
                "find %s/.cache -maxdepth 1 -name 'replay-[0-9a-f]*' -mmin +45 -exec rm -rf {} +" % (V, V), shell=True, capture_output=True)
+
+subprocess.run("find %s/.cache -maxdepth 1 -name 'kani-target-*' -mmin +30 -exec rm -rf {} +" % V, shell=True, capture_output=True)
